@@ -59,6 +59,10 @@ def check(ctx):
             q = e['where'].qualname
             if q in CART_PRODUCERS:
                 ctx.ob('R1', e['where'], e['node'], True, CART_PRODUCERS[q])
+            elif under(*CART_PRODUCERS)(e):
+                # a private helper of a classified producer
+                owner = next(c_ for c_ in reversed(e['ctx']) if c_ in CART_PRODUCERS)
+                ctx.ob('R1', e['where'], e['node'], True, CART_PRODUCERS[owner] + f' (helper of {owner.split(".")[-1]})')
             else:
                 ctx.ob('R1', e['where'], e['node'], None, 'lattice-frame Cartesian coordinates produced in an analysis module: consumer not classified')
     # MSD result
